@@ -6,7 +6,7 @@ import tempfile
 ID = 'C25'
 LEVEL = 'exploration'
 QUICK_S = 45
-THOROUGH_S = 600
+THOROUGH_S = 300
 TECHNIQUE = ('runtime monitoring: every rule of every generated grammar file starts with a literal that encodes (file, rule), so '
              'the accepted model text and the class of every parsed object prove which rule a name was bound to; compared '
              'with a reference resolver (current file, then imports in order); class identity / qualified-name census')
@@ -350,7 +350,7 @@ def classify_load_error(info, top, cyc, msg):
 
 
 def run(ctx):
-    for i in ctx.indices(4000 if ctx.tier == 'quick' else 12000, 'random'):
+    for i in ctx.indices(4000 if ctx.tier == 'quick' else 10 ** 7, 'random'):
         one(ctx, i)
 
 
